@@ -298,3 +298,14 @@ Proof.
     destruct (U_checked_add_spec w n a d ltac:(lia) Ha Hd) as [_ Hout].
     rewrite Hdv in Hout. rewrite Hout by lia. reflexivity.
 Qed.
+
+Print Assumptions U_div_rem_ok.
+Print Assumptions U_checked_div_ok.
+Print Assumptions U_checked_rem_ok.
+Print Assumptions U_wrapping_div_ok.
+Print Assumptions U_wrapping_rem_ok.
+Print Assumptions U_overflowing_div_ok.
+Print Assumptions U_overflowing_rem_ok.
+Print Assumptions U_div_ceil_ok.
+Print Assumptions U_next_multiple_of_ok.
+Print Assumptions U_checked_next_multiple_of_ok.
